@@ -1263,6 +1263,103 @@ def validate_delay_get_data(rng, n, res):
     res.extra["translation_validation_delay_get_data"] = stats
 
 
+def validate_rules(rng, n, res):
+    """`_transfer_fields` and `ConnectHelper._apply_rules` of the real package on random rule lists (FromInput / FromOutput
+    / FromValue in any order, with and without field lists, missing infos, missing metadata keys) against the translated
+    definitions"""
+    from finam.tools import connect_helper as ch
+
+    if not all(common.TRANSLATION_STATUS.get(f, {}).get("translated") for f in ("transfer_fields", "ConnectHelper__apply_rules")):
+        return
+    KEYS = {0: "time", 1: "grid", 2: "units", 3: "foo", 4: "bar"}
+    grids = [fm.NoGrid(), fm.UniformGrid((3, 4)), fm.UniformGrid((4, 5))]
+    times = [EPOCH, EPOCH + dt.timedelta(days=1), EPOCH + dt.timedelta(days=2)]
+    units = ["m", "km", "s", ""]
+
+    def mk_info(spec):
+        if spec is None:
+            return None
+        t, g, meta = spec
+        kw = {KEYS[k]: (units[v] if k == 2 else v) for k, v in meta if v is not None and k != 2}
+        u = dict(meta).get(2)
+        return fm.Info(time=None if t is None else times[t], grid=None if g is None else grids[g], units=None if u is None else units[u], **kw)
+
+    def enc_info(info):
+        if info is None:
+            return None
+        t = None if info.time is None else times.index(info.time)
+        g = None if info.grid is None else next(k for k, x in enumerate(grids) if x is info.grid)
+        meta = []
+        for k, v in info.meta.items():
+            kid = next(i for i, nm in KEYS.items() if nm == k)
+            if kid == 2:
+                v = None if v is None else next((i for i, u in enumerate(units) if fm.UNITS.Unit(u) == v), 99)
+            meta.append([kid, v])
+        return [t, [g, meta]]
+
+    def gen_info_spec():
+        if rng.random() < 0.15:
+            return None
+        meta = [[2, rng.choice([None, 0, 1, 2])]]
+        for k in (3, 4):
+            if rng.random() < 0.5:
+                meta.append([k, rng.choice([1, 2, 3])])
+        return [rng.choice([None, 0, 1, 2]), rng.choice([None, 0, 1, 2]), meta]
+
+    reqs, reals = [], []
+    stats = {"transfer_fields": 0, "ConnectHelper__apply_rules": 0, "ok": 0, "errors": {}, "mismatch": 0}
+    for _ in range(n):
+        ins = {k: gen_info_spec() for k in rng.sample(range(3), rng.randint(0, 2))}
+        outs = {k: gen_info_spec() for k in rng.sample(range(3), rng.randint(0, 2))}
+        rules, objs = [], []
+        for _r in range(rng.randint(0, 4)):
+            kind = rng.choice([0, 0, 1, 2, 2])
+            if kind == 2:
+                f = rng.choice([0, 1, 3, 4])
+                v = rng.choice([0, 1, 2])
+                val = times[v] if f == 0 else grids[v] if f == 1 else v
+                rules.append([kind, [f, [[], v]]])
+                objs.append(ch.FromValue(KEYS[f], val))
+            else:
+                pool = ins if kind == 0 else outs
+                name = rng.choice(list(pool) or [0]) if rng.random() < 0.95 else 2
+                fields = rng.choice([[], [], [0], [1], [0, 1], [3], [2, 0], [4, 3]])
+                rules.append([kind, [name, [fields, None]]])
+                objs.append((ch.FromInput if kind == 0 else ch.FromOutput)(str(name), [KEYS[f] for f in fields] or None))
+        h = ch.ConnectHelper.__new__(ch.ConnectHelper)
+        h.base_logger_name = "finam_verif"
+        h._exchanged_in_infos = {str(k): mk_info(v) for k, v in ins.items()}
+        h._exchanged_out_infos = {str(k): mk_info(v) for k, v in outs.items()}
+        enc_pool = lambda d: [[int(k), enc_info(v)] for k, v in d.items()]  # noqa
+        args = [enc_pool(h._exchanged_in_infos), enc_pool(h._exchanged_out_infos), rules]
+        try:
+            r = h._apply_rules(objs)
+            real = {"ok": enc_info(r)}
+        except ch.MissingInfoError:
+            real = {"err": "other"}
+        except Exception as e:  # noqa
+            real = {"err": err_class(e)}
+        # (the units entry every fresh Info carries: `Info(time=None, grid=None)` has units None under key "units")
+        reqs.append({"fn": "ConnectHelper__apply_rules", "args": args, "fresh_units": True})
+        reals.append(real)
+    for rq, real, lv in zip(reqs, reals, _trdriver([{"fn": r["fn"], "args": r["args"]} for r in reqs])):
+        stats[rq["fn"]] += 1
+        if "err" in real or "err" in lv:
+            agree = real.get("err") == lv.get("err")
+            if "err" in real:
+                stats["errors"][real["err"]] = stats["errors"].get(real["err"], 0) + 1
+        else:
+            stats["ok"] += 1
+            t, (g, meta) = lv["ok"][0], (lv["ok"][1][0], lv["ok"][1][1])
+            got_meta = {k: v for k, v in meta}
+            want_meta = {k: v for k, v in real["ok"][1][1]}
+            agree = t == real["ok"][0] and g == real["ok"][1][0] and got_meta == want_meta
+        if not agree:
+            stats["mismatch"] += 1
+            res.diverge("translation/" + rq["fn"], {"fn": rq["fn"], "args": rq["args"]}, real, lv)
+    res.extra["translation_validation_rules"] = stats
+
+
 def validate(prop, rng, n_per_fn, res):
     """runs the validation for the translated functions owned by `prop`; divergences go to `res`"""
     if prop in ("C13", "C02") and os.path.exists(TRDRIVER):
@@ -1271,6 +1368,7 @@ def validate(prop, rng, n_per_fn, res):
         validate_notify(rng, max(150, n_per_fn), res)
     if prop == "C06" and os.path.exists(TRDRIVER):
         validate_push_data(rng, max(200, n_per_fn), res)
+        validate_rules(rng, max(300, n_per_fn), res)
     if prop == "C10" and os.path.exists(TRDRIVER):
         validate_spill(rng, max(150, n_per_fn), res)
     if prop in ("C07", "C16") and os.path.exists(TRDRIVER):
